@@ -8,6 +8,7 @@
 #include "dbus/dbus-internals.h"
 #include "dbus/dbus-message-internal.h"
 #include "dbus/dbus-message-private.h"
+#include "dbus/dbus-marshal-header.h"
 #include "dump.h"
 
 static unsigned char *unhex (const char *h, int *len)
@@ -99,6 +100,245 @@ main (void)
           printf ("msgs=%d corrupt=%d%s\n", nm, _dbus_message_loader_get_is_corrupted (l) ? 1 : 0, out);
           out[0] = 0;
           _dbus_message_loader_unref (l);
+          fflush (stdout);
+          continue;
+        }
+      if (!strncmp (line, "wire edit ", 10))
+        {
+          /* wire edit <hex> op... : apply header edits through the API, marshal after each */
+          char *save = NULL, *tok = strtok_r (line + 10, " \n", &save);
+          int blen; unsigned char *bb = unhex (tok, &blen);
+          DBusError e = DBUS_ERROR_INIT;
+          DBusMessage *m = dbus_message_demarshal ((const char *) bb, blen, &e);
+          int first = 1;
+          free (bb);
+          if (!m) { printf ("unloadable\n"); dbus_error_free (&e); fflush (stdout); continue; }
+          while ((tok = strtok_r (NULL, " \n", &save)) != NULL)
+            {
+              char kind[16] = "", t[8] = ""; int code = 0; static char val[1 << 16]; val[0] = 0;
+              dbus_bool_t ok = TRUE;
+              char *out; int outlen, i;
+              if (sscanf (tok, "set:%d:%7[a-z]:%65000s", &code, t, val) == 3)
+                {
+                  if (t[0] == 'u')
+                    {
+                      dbus_uint32_t u = (dbus_uint32_t) strtoul (val, NULL, 10);
+                      if (code == 5) ok = dbus_message_set_reply_serial (m, u);
+                      else ok = _dbus_header_set_field_basic (&m->header, code, DBUS_TYPE_UINT32, &u);
+                    }
+                  else
+                    {
+                      int vl; unsigned char *vb = unhex (val, &vl); const char *sv;
+                      vb[vl] = 0; sv = (const char *) vb;
+                      switch (code)
+                        {
+                        case 1: ok = dbus_message_set_path (m, sv); break;
+                        case 2: ok = dbus_message_set_interface (m, sv); break;
+                        case 3: ok = dbus_message_set_member (m, sv); break;
+                        case 4: ok = dbus_message_set_error_name (m, sv); break;
+                        case 6: ok = dbus_message_set_destination (m, sv); break;
+                        case 7: ok = dbus_message_set_sender (m, sv); break;
+                        case 10: ok = dbus_message_set_container_instance (m, sv); break;
+                        default: ok = FALSE;
+                        }
+                      free (vb);
+                    }
+                }
+              else if (sscanf (tok, "del:%d", &code) == 1)
+                {
+                  switch (code)
+                    {
+                    case 1: ok = dbus_message_set_path (m, NULL); break;
+                    case 2: ok = dbus_message_set_interface (m, NULL); break;
+                    case 3: ok = dbus_message_set_member (m, NULL); break;
+                    case 4: ok = dbus_message_set_error_name (m, NULL); break;
+                    case 6: ok = dbus_message_set_destination (m, NULL); break;
+                    case 7: ok = dbus_message_set_sender (m, NULL); break;
+                    case 10: ok = dbus_message_set_container_instance (m, NULL); break;
+                    default: ok = _dbus_header_delete_field (&m->header, code);
+                    }
+                }
+              else if (!strcmp (tok, "unk")) ok = _dbus_header_remove_unknown_fields (&m->header);
+              else if (sscanf (tok, "serial:%15s", kind) == 1) dbus_message_set_serial (m, (dbus_uint32_t) strtoul (kind, NULL, 10));
+              else ok = FALSE;
+              if (!ok) { printf ("%sop-failed", first ? "" : " "); first = 0; continue; }
+              if (!dbus_message_marshal (m, &out, &outlen)) return 2;
+              if (!first) putchar (' ');
+              first = 0;
+              for (i = 0; i < outlen; i++) printf ("%02x", (unsigned char) out[i]);
+              dbus_free (out);
+            }
+          printf ("\n");
+          dbus_message_unref (m);
+          fflush (stdout);
+          continue;
+        }
+      if (!strncmp (line, "wire swap ", 10))
+        {
+          int blen; unsigned char *bb; DBusError e = DBUS_ERROR_INIT; DBusMessage *m;
+          char *nl = strchr (line + 10, '\n'); if (nl) *nl = 0;
+          bb = unhex (line + 10, &blen);
+          m = dbus_message_demarshal ((const char *) bb, blen, &e);
+          free (bb);
+          if (!m) { printf ("corrupt\n"); dbus_error_free (&e); }
+          else
+            {
+              char *out; int outlen, i; DBusMessageIter it;
+              dbus_message_iter_init (m, &it);      /* converts the message to native byte order */
+              if (!dbus_message_marshal (m, &out, &outlen)) return 2;
+              for (i = 0; i < outlen; i++) printf ("%02x", (unsigned char) out[i]);
+              printf ("\n"); dbus_free (out); dbus_message_unref (m);
+            }
+          fflush (stdout);
+          continue;
+        }
+      if (!strncmp (line, "wire build ", 11))
+        {
+          char *save = NULL, *tok;
+          DBusMessage *m = NULL;
+          DBusMessageIter its[80]; int depth = 0; int bad = 0;
+          for (tok = strtok_r (line + 11, " \n", &save); tok && !bad; tok = strtok_r (NULL, " \n", &save))
+            {
+              char a[64] = "", b[64] = ""; static char v[1 << 20]; v[0] = 0;
+              int n = sscanf (tok, "%63[^:]:%63[^:]:%1048000[^:]", a, b, v);
+              if (!strcmp (a, "new")) { m = dbus_message_new (atoi (b)); dbus_message_iter_init_append (m, &its[0]); }
+              else if (!m) bad = 1;
+              else if (!strcmp (a, "serial")) dbus_message_set_serial (m, (dbus_uint32_t) strtoul (b, NULL, 10));
+              else if (!strcmp (a, "flag"))
+                {
+                  int bit = atoi (b), on = atoi (v);
+                  if (bit == 1) dbus_message_set_no_reply (m, on);
+                  else if (bit == 2) dbus_message_set_auto_start (m, !on);
+                  else if (bit == 4) dbus_message_set_allow_interactive_authorization (m, on);
+                  else bad = 1;
+                }
+              else if (!strcmp (a, "hdr"))
+                {
+                  /* hdr:<code>:<t>:<value> */
+                  char t[8] = ""; int code = atoi (b); static char val[1 << 20]; val[0] = 0;
+                  sscanf (tok, "hdr:%*d:%7[a-z]:%1048000s", t, val);
+                  if (t[0] == 'u') { if (!dbus_message_set_reply_serial (m, (dbus_uint32_t) strtoul (val, NULL, 10))) bad = 1; }
+                  else
+                    {
+                      int vl; unsigned char *vb = unhex (val, &vl); dbus_bool_t ok = FALSE; const char *sv;
+                      vb[vl] = 0; sv = (const char *) vb;
+                      switch (code)
+                        {
+                        case 1: ok = dbus_message_set_path (m, sv); break;
+                        case 2: ok = dbus_message_set_interface (m, sv); break;
+                        case 3: ok = dbus_message_set_member (m, sv); break;
+                        case 4: ok = dbus_message_set_error_name (m, sv); break;
+                        case 6: ok = dbus_message_set_destination (m, sv); break;
+                        case 7: ok = dbus_message_set_sender (m, sv); break;
+                        case 10: ok = dbus_message_set_container_instance (m, sv); break;
+                        }
+                      free (vb);
+                      if (!ok) bad = 1;
+                    }
+                }
+              else if (!strcmp (a, "b") && n >= 2)
+                {
+                  int code = b[0];
+                  if (dbus_type_is_fixed (code))
+                    {
+                      unsigned long long raw = strtoull (v, NULL, 10);
+                      DBusBasicValue bv; memset (&bv, 0, sizeof bv);
+                      switch (code)
+                        {
+                        case 'y': bv.byt = (unsigned char) raw; break;
+                        case 'b': bv.bool_val = (dbus_bool_t) raw; break;
+                        case 'n': bv.i16 = (dbus_int16_t) (dbus_uint16_t) raw; break;
+                        case 'q': bv.u16 = (dbus_uint16_t) raw; break;
+                        case 'i': bv.i32 = (dbus_int32_t) (dbus_uint32_t) raw; break;
+                        case 'u': bv.u32 = (dbus_uint32_t) raw; break;
+                        case 'h': bv.fd = (int) raw; break;
+                        case 'x': bv.i64 = (dbus_int64_t) raw; break;
+                        case 't': bv.u64 = (dbus_uint64_t) raw; break;
+                        case 'd': memcpy (&bv.dbl, &raw, 8); break;
+                        }
+                      if (!dbus_message_iter_append_basic (&its[depth], code, &bv)) bad = 1;
+                    }
+                  else
+                    {
+                      int vl; unsigned char *vb = unhex (v, &vl); const char *sv;
+                      vb[vl] = 0; sv = (const char *) vb;
+                      if (!dbus_message_iter_append_basic (&its[depth], code, &sv)) bad = 1;
+                      free (vb);
+                    }
+                }
+              else if (!strcmp (a, "fa"))
+                {
+                  int code = b[0], cnt = 0, sz = code == 'y' ? 1 : (code == 'n' || code == 'q') ? 2 : (code == 'x' || code == 't' || code == 'd') ? 8 : 4;
+                  static unsigned char arr[1 << 16]; char *p = v; char sg[2] = { (char) code, 0 };
+                  DBusMessageIter sub; const void *ptr = arr;
+                  while (*p)
+                    {
+                      unsigned long long raw = strtoull (p, &p, 10);
+                      if (sz == 1) arr[cnt] = (unsigned char) raw;
+                      else if (sz == 2) ((dbus_uint16_t *) arr)[cnt] = (dbus_uint16_t) raw;
+                      else if (sz == 4) ((dbus_uint32_t *) arr)[cnt] = (dbus_uint32_t) raw;
+                      else ((dbus_uint64_t *) arr)[cnt] = (dbus_uint64_t) raw;
+                      cnt++;
+                      if (*p == ',') p++;
+                    }
+                  if (!dbus_message_iter_open_container (&its[depth], DBUS_TYPE_ARRAY, sg, &sub)) bad = 1;
+                  else
+                    {
+                      if (!dbus_message_iter_append_fixed_array (&sub, code, &ptr, cnt)) bad = 1;
+                      if (!dbus_message_iter_close_container (&its[depth], &sub)) bad = 1;
+                    }
+                }
+              else if (!strcmp (a, "open"))
+                {
+                  int ct = b[0] == 'a' ? DBUS_TYPE_ARRAY : b[0] == 'r' ? DBUS_TYPE_STRUCT : b[0] == 'v' ? DBUS_TYPE_VARIANT : DBUS_TYPE_DICT_ENTRY;
+                  if (depth >= 78 || !dbus_message_iter_open_container (&its[depth], ct, (b[0] == 'a' || b[0] == 'v') ? v : NULL, &its[depth + 1])) bad = 1;
+                  else depth++;
+                }
+              else if (!strcmp (a, "close"))
+                {
+                  if (depth == 0 || !dbus_message_iter_close_container (&its[depth - 1], &its[depth])) bad = 1;
+                  else depth--;
+                }
+              else bad = 1;
+            }
+          if (bad || !m || depth != 0) printf ("bad-program\n");
+          else
+            {
+              char *out, *out2, *out3; int ol, ol2, ol3, i, rt;
+              DBusError e = DBUS_ERROR_INIT; DBusMessage *back, *copy;
+              if (!dbus_message_marshal (m, &out, &ol)) return 2;
+              for (i = 0; i < ol; i++) printf ("%02x", (unsigned char) out[i]);
+              back = dbus_message_demarshal (out, ol, &e);
+              rt = 0;
+              if (back && dbus_message_marshal (back, &out2, &ol2))
+                { rt = (ol2 == ol && !memcmp (out, out2, ol)); dbus_free (out2); }
+              if (back) dbus_message_unref (back); else dbus_error_free (&e);
+              printf (" rt=%d copy=", rt);
+              copy = dbus_message_copy (m);
+              if (!dbus_message_marshal (copy, &out3, &ol3)) return 2;
+              for (i = 0; i < ol3; i++) printf ("%02x", (unsigned char) out3[i]);
+              printf ("\n");
+              dbus_free (out); dbus_free (out3); dbus_message_unref (copy);
+            }
+          if (m) dbus_message_unref (m);
+          fflush (stdout);
+          continue;
+        }
+      if (!strncmp (line, "wire reencode ", 14))
+        {
+          int blen; unsigned char *bb; DBusError e = DBUS_ERROR_INIT; DBusMessage *m;
+          char *nl = strchr (line + 14, '\n'); if (nl) *nl = 0;
+          bb = unhex (line + 14, &blen);
+          m = dbus_message_demarshal ((const char *) bb, blen, &e);
+          free (bb);
+          if (!m) { printf ("corrupt\n"); dbus_error_free (&e); }
+          else
+            {
+              char *out; int outlen, i;
+              if (!dbus_message_marshal (m, &out, &outlen)) return 2;
+              for (i = 0; i < outlen; i++) printf ("%02x", (unsigned char) out[i]);
+              printf ("\n"); dbus_free (out); dbus_message_unref (m);
+            }
           fflush (stdout);
           continue;
         }
